@@ -435,6 +435,18 @@ class Prep(ast.NodeTransformer):
                                       value=ast.Call(func=ast.Name(id="_ite", ctx=ast.Load()), args=[ast.Name(id=cname, ctx=ast.Load())] + a, keywords=[])))
         return [ast.copy_location(x, node) for x in out]
 
+    def visit_For(self, node):
+        """inside the unrolled body the loop variable is a literal; AFTER the loop it is an ordinary variable that was
+        assigned that literal (typed by value), not a literal any more"""
+        self.generic_visit(node)
+        if not isinstance(node.target, ast.Name):
+            return node
+        nm = node.target.id
+        post = ast.Try(
+            body=[ast.Assign(targets=[ast.Name(id=nm, ctx=ast.Store())], value=ast.Call(func=ast.Name(id="_postloop", ctx=ast.Load()), args=[ast.Name(id=nm, ctx=ast.Load())], keywords=[]))],
+            handlers=[ast.ExceptHandler(type=ast.Name(id="NameError", ctx=ast.Load()), name=None, body=[ast.Pass()])], orelse=[], finalbody=[])
+        return [node, ast.copy_location(post, node)]
+
     def visit_Call(self, node):
         if isinstance(node.func, ast.Name) and (node.func.id == "range" or node.func.id.startswith("Qint") or node.func.id.startswith("Qfixed") or node.func.id == "Qchar"):
             return node
@@ -477,6 +489,12 @@ def _KF(c):
     while (v * (1 << f)).denominator != 1:
         f += 1
     return F(v, i, f)
+
+
+def _postloop(v):
+    if isinstance(v, int) and not isinstance(v, bool):
+        return _K(v)
+    return v
 
 
 def _KC(c):
@@ -652,7 +670,7 @@ def make_ref(src, extra=None, fname=None):
     ast.fix_missing_locations(tree)
     ns = {
         "_K": _K, "_KF": _KF, "_KC": _KC, "_ite": _ite, "_idx": _idx, "_doubt": _doubt, "sum": _sum, "max": _max, "min": _min, "all": _all, "any": _any,
-        "int": _int, "float": _float, "ord": _ord, "chr": _chr, "print": lambda *a, **k: None,
+        "_postloop": _postloop, "int": _int, "float": _float, "ord": _ord, "chr": _chr, "print": lambda *a, **k: None,
         "True": True, "False": False,
     }
     for w in (2, 3, 4, 5, 6, 7, 8, 12, 16):
